@@ -733,8 +733,13 @@ func (c *converter) Copy(destination string, source string, valueUsed bool, glob
 	c.sliceCopyHelperRequired = true
 	c.callFunc(sliceCopyHelper, []string{}, c.varName(destination, global), source)
 
+	helper := c.nextHelperVar()
+
+	// Store the length in a helper variable because _len is changed by the next length evaluation.
 	c.callFunc(sliceLenGetHelper, []string{}, c.varEvaluationString(destination, global))
-	return c.varEvaluationString("_len", true), nil
+	c.VarAssignment(helper, c.varEvaluationString("_len", true), false)
+
+	return c.VarEvaluation(helper, valueUsed, false)
 }
 
 func (c *converter) Exists(path string, valueUsed bool) (string, error) {
